@@ -726,11 +726,15 @@ def zb(x):
 
 class S:
     """symbolic Int or Real scalar (mathematical; floats are reals)"""
-    __slots__ = ('e',)
+    __slots__ = ('e', 'py')
     __array_priority__ = 1000
 
-    def __init__(self, e):
+    def __init__(self, e, py=False):
         self.e = e
+        self.py = py          # a plain Python number (float()/int() result) rather than a numpy scalar: x / 0 raises
+
+    def _pyres(self, o):
+        return self.py and (_isnum(o) or (isinstance(o, S) and o.py))
 
     @property
     def is_int(self):
@@ -760,7 +764,7 @@ class S:
             return b
         if isinstance(b, float):
             return b
-        return S(self.e + b)
+        return S(self.e + b, self._pyres(o))
     __radd__ = __add__
 
     def __sub__(self, o):
@@ -769,7 +773,7 @@ class S:
             return b
         if isinstance(b, float):
             return -b
-        return S(self.e - b)
+        return S(self.e - b, self._pyres(o))
 
     def __rsub__(self, o):
         b = self._other(o)
@@ -777,7 +781,7 @@ class S:
             return b
         if isinstance(b, float):
             return b
-        return S(b - self.e)
+        return S(b - self.e, self._pyres(o))
 
     def __mul__(self, o):
         if _isnum(o) and o == 0 and not isinstance(o, float):
@@ -791,8 +795,8 @@ class S:
                 return b
             return ite(self > 0, b, ite(self < 0, -b, float('nan')))
         if CTX is not None and getattr(CTX, 'lazy_products', False):
-            return S(lazy_product(self.e, b))
-        return S(self.e * b)
+            return S(lazy_product(self.e, b), self._pyres(o))
+        return S(self.e * b, self._pyres(o))
     __rmul__ = __mul__
 
     def __truediv__(self, o):
@@ -801,7 +805,19 @@ class S:
             return b
         if isinstance(b, float):
             return 0.0
-        return S(_real(self.e) / _real(b))
+        if CTX is not None and getattr(CTX, 'div_mode', None) == 'numpy':
+            bs = z3.simplify(b)
+            if not ((z3.is_rational_value(bs) or z3.is_int_value(bs)) and bs.as_fraction() != 0):
+                if branch(b == 0):
+                    if self._pyres(o):
+                        raise ZeroDivisionError('float division by zero')
+                    # numpy scalar semantics: warning, then +-inf / nan
+                    if branch(self.e > 0):
+                        return INF
+                    if branch(self.e < 0):
+                        return -INF
+                    return float('nan')
+        return S(_real(self.e) / _real(b), self._pyres(o))
 
     def __rtruediv__(self, o):
         b = self._other(o)
@@ -836,13 +852,13 @@ class S:
         return o - q * self
 
     def __neg__(self):
-        return S(-self.e)
+        return S(-self.e, self.py)
 
     def __pos__(self):
         return self
 
     def __abs__(self):
-        return S(z3.If(self.e >= 0, self.e, -self.e))
+        return S(z3.If(self.e >= 0, self.e, -self.e), self.py)
 
     def __pow__(self, o):
         if isinstance(o, int) and 0 <= o <= 4:
@@ -966,7 +982,7 @@ def ite(c, a, b):
     if ea.sort() != eb.sort():
         ea = _real(ea)
         eb = _real(eb)
-    return S(z3.If(c, ea, eb))
+    return S(z3.If(c, ea, eb), (isinstance(a, S) and a.py or _isnum(a)) and (isinstance(b, S) and b.py or _isnum(b)))
 
 
 def _zite(c, a, b):
@@ -1071,7 +1087,7 @@ def sround(x):
 
 def sfloat(x):
     if isinstance(x, S):
-        return S(_real(x.e))
+        return S(_real(x.e), True)
     if isinstance(x, (XR,)):
         return x
     return float(x)
